@@ -538,3 +538,377 @@ Proof.
             eapply IH; [exact H2|eapply compile_expr_entries_ok; [exact H1|exact E]]).
   eapply IH; eauto.
 Qed.
+
+(* ---------- from compiler instructions to what the decoder sees ---------- *)
+
+Definition ser_ok (i : instr) : Prop := exists bs, ser_instr i = Ok bs.
+
+Lemma ser_ok_inv i : ser_ok i -> exists o ca va cb vb cc vc,
+  ser_op (i_op i) = Ok o /\ reg_code (i_res i) = Ok (ca, va) /\ reg_code (i_left i) = Ok (cb, vb) /\ reg_code (i_right i) = Ok (cc, vc).
+Proof.
+  intros (bs & H). unfold ser_instr in H.
+  apply bind_ok_inv in H. destruct H as (o & Ho & H).
+  apply bind_ok_inv in H. destruct H as (a & Ha & H).
+  apply bind_ok_inv in H. destruct H as (b & Hb & H).
+  apply bind_ok_inv in H. destruct H as (c & Hc & H).
+  apply ser_reg_img_inv in Ha. destruct Ha as (ca & va & Ra & _).
+  apply ser_reg_img_inv in Hb. destruct Hb as (cb & vb & Rb & _).
+  apply ser_reg_img_inv in Hc. destruct Hc as (cc & vc & Rc & _).
+  eauto 12.
+Qed.
+
+Lemma ser_instrs_ok is : forall bs, ser_instrs is = Ok bs -> Forall ser_ok is.
+Proof.
+  induction is as [|i r IH]; intros bs H; cbn [ser_instrs] in H; [constructor|].
+  apply bind_ok_inv in H. destruct H as (a & Ha & H). apply bind_ok_inv in H. destruct H as (b & Hb & _).
+  constructor; [exists a; exact Ha|eapply IH; eauto].
+Qed.
+
+Lemma reg_in_files_ok r c v : reg_code r = Ok (c, v) -> prim_ok r -> reg_in_files (mkRR c v) = true.
+Proof.
+  unfold reg_in_files. cbn [rr_class rr_idx].
+  destruct r as [i t vol|n|b|i t|i t|i t|i t vol|i t|]; cbn [reg_code prim_ok]; intros H Hp; try discriminate H;
+    unfold LIM_CONTROL, LIM_IMPLICIT, LIM_LOCAL, LIM_PRIMITIVE, LIM_REPORT, LIM_TMP in H;
+    repeat match type of H with (if ?x then _ else _) = _ => destruct x eqn:? end; try discriminate H; inversion H; subst;
+    try destruct vol; cbn; try reflexivity;
+    try (match goal with E : (_ <? _) = false |- _ => apply N.ltb_ge in E end; apply N.ltb_lt; lia).
+Qed.
+
+Lemma writable_ok r c v : reg_code r = Ok (c, v) -> res_shape r -> ImageSpec.writable (mkRR c v) = true.
+Proof.
+  unfold ImageSpec.writable, res_shape. cbn [rr_class].
+  destruct r as [i t vol|n|b|i t|i t|i t|i t vol|i t|]; cbn [reg_code slot]; intros H Hs; try discriminate H; try discriminate Hs;
+    repeat match type of H with (if ?x then _ else _) = _ => destruct x end; try discriminate H; inversion H; subst;
+    try destruct vol; reflexivity.
+Qed.
+
+Lemma raw_instr_ok i : ser_ok i -> ishape i -> instr_ok (raw_instr i) = true.
+Proof.
+  intros Hs (Hr & Hl & Hrr). destruct (ser_ok_inv _ Hs) as (o & ca & va & cb & vb & cc & vc & Ho & Ra & Rb & Rc).
+  unfold instr_ok, raw_instr, raw_reg. rewrite Ra, Rb, Rc. cbn [ri_op ri_res ri_left ri_right].
+  destruct (ser_op_lt _ _ Ho) as [Hlt ->].
+  rewrite (writable_ok _ _ _ Ra Hr), (reg_in_files_ok _ _ _ Ra (res_shape_prim_ok _ Hr)),
+    (reg_in_files_ok _ _ _ Rb Hl), (reg_in_files_ok _ _ _ Rc Hrr).
+  rewrite !andb_true_r. apply N.ltb_lt. exact Hlt.
+Qed.
+
+(* the DEF preamble *)
+Definition is_def_instr (i : instr) : Prop :=
+  i_op i = ODef /\ i_left i = i_res i /\ (match i_res i with Report _ _ _ | Control _ _ _ => True | _ => False end) /\
+  (match i_right i with ImmNum _ | ImmBool _ => True | _ => False end).
+
+Lemma def_instrs_are_defs l : Forall is_def_instr (def_instrs l).
+Proof.
+  induction l as [|[x r] t IH]; cbn [def_instrs]; [constructor|].
+  destruct r as [i ty vol|n|b|i ty|i ty|i ty|i ty vol|i ty|]; try exact IH;
+    destruct ty as [[b|]|s|[n|]|]; try exact IH; constructor; try exact IH; repeat split; exact I.
+Qed.
+
+Lemma def_raw_ok i : is_def_instr i -> ser_ok i -> def_ok (raw_instr i) = true /\ ishape i.
+Proof.
+  intros (Ho & Hl & Hp & Hi) Hs. destruct (ser_ok_inv _ Hs) as (o & ca & va & cb & vb & cc & vc & Hso & Ra & Rb & Rc).
+  split.
+  - unfold def_ok, raw_instr, raw_reg. rewrite Hl in *. rewrite Ra. rewrite Ra in Rb. inversion Rb; subst cb vb. rewrite Rc.
+    cbn [ri_op ri_res ri_left ri_right rr_class rr_idx]. rewrite Ho. cbn [opcode ser_op]. rewrite !N.eqb_refl.
+    assert (Hc1 : cc = 1) by (destruct (i_right i); try contradiction; cbn in Rc;
+                              repeat match type of Rc with (if ?x then _ else _) = _ => destruct x end; inversion Rc; reflexivity).
+    assert (Hca : (ca =? 0) || (ca =? 8) || (ca =? 5) || (ca =? 6) = true).
+    { destruct (i_res i) as [j t vol|n|b|j t|j t|j t|j t vol|j t|]; try contradiction; cbn in Ra;
+        repeat match type of Ra with (if ?x then _ else _) = _ => destruct x end; try discriminate Ra; inversion Ra; subst; try destruct vol; reflexivity. }
+    rewrite Hca, Hc1. reflexivity.
+  - repeat split.
+    + unfold res_shape. destruct (i_res i); try contradiction; exact I.
+    + rewrite Hl. destruct (i_res i); try contradiction; exact I.
+    + destruct (i_right i); try contradiction; exact I.
+Qed.
+
+Lemma count_defs_app defs eis : Forall is_def_instr defs -> Forall (fun i => i_op i <> ODef) eis -> Forall ser_ok eis ->
+  count_defs (map raw_instr (defs ++ eis)) = length defs.
+Proof.
+  intros Hd He Hs. induction Hd as [|d t (Ho & _) _ IH]; cbn [app map count_defs length].
+  - destruct eis as [|e r]; [reflexivity|]. cbn [map count_defs].
+    inversion He as [|? ? Hne _]; subst. inversion Hs as [|? ? Hse _]; subst.
+    destruct (ser_ok_inv _ Hse) as (o & _ & _ & _ & _ & _ & _ & Hso & _). cbn [raw_instr ri_op].
+    destruct (i_op e); try congruence; reflexivity.
+  - cbn [raw_instr ri_op]. rewrite Ho. cbn. rewrite IH. reflexivity.
+Qed.
+
+(* temporaries: the decoder's view equals the compiler-level one *)
+Lemma raw_tmp r c v : reg_code r = Ok (c, v) ->
+  is_tmp (mkRR c v) = is_tmp_reg r /\ (is_tmp_reg r = true -> v = tmp_idx r).
+Proof.
+  unfold is_tmp. cbn [rr_class].
+  destruct r as [i t vol|n|b|i t|i t|i t|i t vol|i t|]; cbn [reg_code is_tmp_reg tmp_idx]; intros H; try discriminate H;
+    repeat match type of H with (if ?x then _ else _) = _ => destruct x end; try discriminate H; inversion H; subst;
+    try destruct vol; split; try reflexivity; intros Hq; try discriminate Hq; reflexivity.
+Qed.
+
+Lemma raw_tmp_written W r c v : reg_code r = Ok (c, v) -> tmp_written W (mkRR c v) = tmp_written_i W r.
+Proof.
+  intros H. destruct (raw_tmp _ _ _ H) as [H1 H2]. unfold tmp_written, tmp_written_i. rewrite H1. cbn [rr_idx].
+  destruct (is_tmp_reg r) eqn:E; [|reflexivity]. rewrite (H2 eq_refl). reflexivity.
+Qed.
+
+Lemma tmps_raw is : Forall ser_ok is -> forall W, tmps_ok W (map raw_instr is) = tmps_ok_i W is.
+Proof.
+  induction 1 as [|i r Hs _ IH]; intros W; [reflexivity|]. cbn [map tmps_ok tmps_ok_i].
+  destruct (ser_ok_inv _ Hs) as (o & ca & va & cb & vb & cc & vc & Ho & Ra & Rb & Rc).
+  unfold raw_instr, raw_reg. rewrite Ra, Rb, Rc. cbn [ri_op ri_res ri_left ri_right].
+  rewrite (raw_tmp_written W _ _ _ Ra), (raw_tmp_written W _ _ _ Rb), (raw_tmp_written W _ _ _ Rc).
+  destruct (raw_tmp _ _ _ Ra) as [T1 T2]. rewrite T1. cbn [rr_idx].
+  assert (Hop : (opcode (i_op i) =? 5) = op_eqb (i_op i) OEwma).
+  { unfold opcode. destruct (i_op i); try reflexivity; discriminate Ho. }
+  rewrite Hop. f_equal.
+  destruct (is_tmp_reg (i_res i)) eqn:E; [rewrite (T2 eq_refl)|]; apply IH.
+Qed.
+
+(* ---------- the events tile the instruction list, at the decoder's level ---------- *)
+
+Lemma sub_list_mid {A B} (f : A -> B) (a b c : list A) :
+  sub_list (map f (a ++ b ++ c)) (length a) (length b) = map f b.
+Proof.
+  unfold sub_list. rewrite !map_app.
+  rewrite skipn_app, skipn_all2 by (rewrite map_length; lia). rewrite map_length, Nat.sub_diag. cbn [app skipn].
+  rewrite firstn_app, firstn_all2 by (rewrite map_length; lia). rewrite map_length, Nat.sub_diag. cbn [firstn]. apply app_nil_r.
+Qed.
+
+Lemma compile_body_no_def es : forall sc is sc', compile_body es sc = Ok (is, sc') -> Forall (fun i => i_op i <> ODef) is.
+Proof.
+  induction es as [|e r IH]; intros sc is sc' H; cbn [compile_body] in H; [inversion H; constructor|].
+  destruct e as [p|c|o l r0|].
+  all: try (apply bind_ok_inv in H; destruct H as ([[is1 r1] sc1] & H1 & H);
+            apply bind_ok_inv in H; destruct H as ([rest sc2] & H2 & H); inversion H; subst;
+            apply Forall_app; split; [eapply compile_expr_no_def; exact H1|eapply IH; exact H2]).
+  eapply IH; eauto.
+Qed.
+
+Lemma compile_events_no_def evs : forall sc idx devs is sc', compile_events evs sc idx = Ok (devs, is, sc') ->
+  Forall (fun i => i_op i <> ODef) is.
+Proof.
+  induction evs as [|ev r IH]; intros sc idx devs is sc' H; cbn [compile_events] in H; [inversion H; constructor|].
+  apply bind_ok_inv in H. destruct H as ([fi sc1] & Hf & H).
+  apply bind_ok_inv in H. destruct H as ([bi sc2] & Hb & H).
+  apply bind_ok_inv in H. destruct H as ([[evs' is'] sc3] & Hr & H). inversion H; subst.
+  apply Forall_app. split; [eapply compile_flag_no_def; exact Hf|].
+  apply Forall_app. split; [eapply compile_body_no_def; exact Hb|eapply IH; exact Hr].
+Qed.
+
+Lemma compile_events_shape evs : forall sc idx devs is sc', compile_events evs sc idx = Ok (devs, is, sc') ->
+  entries_ok (sc_named sc) -> flagsI (sc_named sc) -> tnd (sc_named sc) -> Forall event_names evs -> Forall ishape is.
+Proof.
+  induction evs as [|ev r IH]; intros sc idx devs is sc' H E F T Hn; cbn [compile_events] in H; [inversion H; constructor|].
+  apply bind_ok_inv in H. destruct H as ([fi sc1] & Hf & H).
+  apply bind_ok_inv in H. destruct H as ([bi sc2] & Hb & H).
+  apply bind_ok_inv in H. destruct H as ([[evs' is'] sc3] & Hr & H). inversion H; subst.
+  inversion Hn as [|? ? [Hnf Hnb] Hnr]; subst.
+  destruct (compile_flag_FI _ _ _ _ Hnf Hf F T) as [F1 T1].
+  destruct (compile_body_FI _ _ _ _ Hnb Hb F1 T1) as [F2 T2].
+  pose proof (compile_flag_entries_ok _ _ _ _ Hf E) as E1.
+  pose proof (compile_body_entries_ok _ _ _ _ Hb E1) as E2.
+  apply Forall_app. split; [exact (proj1 (compile_flag_shape _ _ _ _ Hf E F1))|].
+  apply Forall_app. split; [eapply compile_body_shape; eauto|eapply IH; eauto].
+Qed.
+
+Lemma raw_implicit0 t : raw_reg (Implicit 0 t) = mkRR 2 0.
+Proof. reflexivity. Qed.
+
+Lemma compile_events_tiles evs : forall sc idx devs eis sc' pre,
+  compile_events evs sc idx = Ok (devs, eis, sc') ->
+  entries_ok (sc_named sc) -> flagsI (sc_named sc) -> tnd (sc_named sc) -> Forall event_names evs ->
+  idx = N.of_nat (length pre) -> Forall ser_ok eis ->
+  tiles idx (map raw_event devs) (map raw_instr (pre ++ eis)) = true.
+Proof.
+  induction evs as [|ev r IH]; intros sc idx devs eis sc' pre H E F T Hn Hidx Hs; cbn [compile_events] in H.
+  - inversion H; subst. cbn [map tiles]. rewrite app_nil_r, map_length. apply N.eqb_refl.
+  - apply bind_ok_inv in H. destruct H as ([fi sc1] & Hf & H).
+    apply bind_ok_inv in H. destruct H as ([bi sc2] & Hb & H).
+    apply bind_ok_inv in H. destruct H as ([[evs' is'] sc3] & Hr & H). inversion H; subst devs eis sc3; clear H.
+    inversion Hn as [|? ? [Hnf Hnb] Hnr]; subst.
+    destruct (compile_flag_FI _ _ _ _ Hnf Hf F T) as [F1 T1].
+    destruct (compile_body_FI _ _ _ _ Hnb Hb F1 T1) as [F2 T2].
+    pose proof (compile_flag_entries_ok _ _ _ _ Hf E) as E1.
+    pose proof (compile_body_entries_ok _ _ _ _ Hb E1) as E2.
+    apply Forall_app in Hs. destruct Hs as [Sf Hs]. apply Forall_app in Hs. destruct Hs as [Sb Sr].
+    destruct (compile_flag_shape _ _ _ _ Hf E F1) as (_ & fpre & last & t0 & Hfi & Hlast).
+    assert (Hlen : (1 <= length fi)%nat) by (rewrite Hfi, app_length; cbn; lia).
+    cbn [map tiles raw_event e_flag_idx e_num_flag e_body_idx e_num_body re_flag_idx re_num_flag re_body_idx re_num_body].
+    rewrite N.eqb_refl, N.eqb_refl.
+    assert (H1 : (1 <=? N.of_nat (length fi)) = true) by (apply N.leb_le; lia). rewrite H1.
+    assert (H2 : (N.of_nat (length pre) + N.of_nat (length fi) + N.of_nat (length bi) <=?
+                  N.of_nat (length (map raw_instr (pre ++ fi ++ bi ++ is')))) = true).
+    { apply N.leb_le. rewrite map_length, !app_length. lia. }
+    rewrite H2. cbn [andb].
+    replace (N.to_nat (N.of_nat (length pre) + N.of_nat (length fi))) with (length (pre ++ fi)) by (rewrite app_length; lia).
+    rewrite !Nat2N.id.
+    assert (Hbody : sub_list (map raw_instr (pre ++ fi ++ bi ++ is')) (length (pre ++ fi)) (length bi) = map raw_instr bi).
+    { replace (pre ++ fi ++ bi ++ is') with ((pre ++ fi) ++ bi ++ is') by (rewrite <- app_assoc; reflexivity). apply sub_list_mid. }
+    rewrite (sub_list_mid raw_instr pre fi (bi ++ is')), Hbody.
+    rewrite (tmps_raw _ Sf), (tmps_raw _ Sb), (compile_flag_tmps _ _ _ _ Hf E F1), (compile_body_tmps _ _ _ _ [] Hb E1).
+    assert (Hrev : rev (map raw_instr fi) = raw_instr last :: rev (map raw_instr fpre)) by (rewrite Hfi, map_app, rev_app_distr; reflexivity).
+    rewrite Hrev. cbn [raw_instr ri_res]. rewrite Hlast, raw_implicit0. cbn [rr_class rr_idx N.eqb andb].
+    replace (pre ++ fi ++ bi ++ is') with ((pre ++ fi ++ bi) ++ is') by (rewrite <- !app_assoc; reflexivity).
+    eapply IH; [exact Hr|exact E2|exact F2|exact T2|exact Hnr| |exact Sr].
+    rewrite !app_length. lia.
+Qed.
+
+(* ---------- the scope the events are compiled in ---------- *)
+
+Lemma flagsI_update_type sc n t r sc' : flagsI (sc_named sc) -> update_type sc n t = Ok (r, sc') -> flagsI (sc_named sc').
+Proof.
+  intros F Hu. apply update_type_spec in Hu. destruct Hu as ((r0 & G0 & Hr & _) & G1 & Ho & _).
+  assert (K : forall m k tk, sc_get (sc_named sc) m = Some (Implicit k tk) -> exists t', sc_get (sc_named sc') m = Some (Implicit k t')).
+  { intros m k tk Hm. destruct (name_eqb m n) eqn:Em.
+    - apply name_eqb_eq in Em. subst m. rewrite G0 in Hm. inversion Hm; subst r0. cbn [retype] in Hr. subst r. eauto.
+    - rewrite Ho; [eauto|]. intros ->. rewrite name_eqb_refl in Em. discriminate Em. }
+  destruct F as ((t0 & H0) & (t1 & H1) & (t2 & H2)).
+  split; [eapply K; eauto|split; eapply K; eauto].
+Qed.
+
+Lemma tnd_update_type sc n t r sc' : tnd (sc_named sc) -> tnd_ty t -> update_type sc n t = Ok (r, sc') -> tnd (sc_named sc').
+Proof.
+  unfold update_type. intros T Ht H. apply bind_ok_inv in H. destruct H as ([r1 l'] & H1 & H). inversion H; subst. cbn [sc_named].
+  eapply tnd_update; eauto.
+Qed.
+
+Lemma apply_updates_FI ups : forall sc, flagsI (sc_named sc) -> tnd (sc_named sc) ->
+  flagsI (sc_named (apply_updates ups sc)) /\ tnd (sc_named (apply_updates ups sc)).
+Proof.
+  induction ups as [|[n v] r IH]; intros sc F T; cbn [apply_updates]; [auto|].
+  destruct (update_type sc n (TNum (Some v))) as [[r1 sc1]| |] eqn:Hu; auto.
+  apply IH; [eapply flagsI_update_type; eauto|eapply tnd_update_type; eauto; exact I].
+Qed.
+
+Lemma tname_free_tnd t : tname_free t -> tnd_ty t.
+Proof. destruct t; cbn; tauto. Qed.
+
+Definition decl_ok (d : bool * name * ty) : Prop := nd (snd (fst d)) /\ tname_free (snd d).
+
+Lemma declare_FI (mk : scope -> bool -> name -> ty -> outcome (reg * scope)) :
+  (forall sc v n t r sc', nd n -> tname_free t -> flagsI (sc_named sc) -> tnd (sc_named sc) -> mk sc v n t = Ok (r, sc') ->
+                          flagsI (sc_named sc') /\ tnd (sc_named sc')) ->
+  forall ds sc sc', Forall decl_ok ds -> declare mk ds sc = Ok sc' -> flagsI (sc_named sc) -> tnd (sc_named sc) ->
+                    flagsI (sc_named sc') /\ tnd (sc_named sc').
+Proof.
+  intros Hmk. induction ds as [|[[v n] t] r IH]; intros sc sc' Hd H F T; cbn [declare] in H; [inversion H; subst; auto|].
+  inversion Hd as [|? ? [Hn Ht] Hr]; subst. cbn in Hn, Ht.
+  apply bind_ok_inv in H. destruct H as ([r1 sc1] & H1 & H).
+  destruct (Hmk _ _ _ _ _ _ Hn Ht F T H1) as [F1 T1]. eapply IH; eauto.
+Qed.
+
+Lemma new_report_FI sc v n t r sc' : nd n -> tname_free t -> flagsI (sc_named sc) -> tnd (sc_named sc) -> new_report sc v n t = Ok (r, sc') ->
+  flagsI (sc_named sc') /\ tnd (sc_named sc').
+Proof.
+  unfold new_report. intros Hn Ht F T. destruct (255 <=? sc_nperm sc); [discriminate|]. intros H. inversion H; subst. cbn [sc_named].
+  split; [apply flagsI_insert; auto|apply tnd_insert; [exact T|cbn [reg_type]; apply tname_free_tnd; exact Ht]].
+Qed.
+
+Lemma new_control_FI sc v n t r sc' : nd n -> tname_free t -> flagsI (sc_named sc) -> tnd (sc_named sc) -> new_control sc v n t = Ok (r, sc') ->
+  flagsI (sc_named sc') /\ tnd (sc_named sc').
+Proof.
+  unfold new_control. intros Hn Ht F T. destruct (255 <=? sc_nctl sc); [discriminate|]. intros H. inversion H; subst. cbn [sc_named].
+  split; [apply flagsI_insert; auto|apply tnd_insert; [exact T|cbn [reg_type]; apply tname_free_tnd; exact Ht]].
+Qed.
+
+Lemma flagsI_new : flagsI (sc_named scope_new).
+Proof. unfold flagsI. vm_compute. eauto 10. Qed.
+
+Lemma tnd_new : tnd (sc_named scope_new).
+Proof. unfold tnd. vm_compute. repeat (constructor; [exact I|]). constructor. Qed.
+
+Lemma Forall_filter_keep {A} (P : A -> Prop) f (l : list A) : Forall P l -> Forall P (filter f l).
+Proof. rewrite !Forall_forall. intros H x Hx. apply filter_In in Hx. apply H. tauto. Qed.
+
+Lemma new_with_scope_inv cps evs sc0 : new_with_scope cps = inl (Ok (evs, sc0)) ->
+  entries_ok (sc_named sc0) /\ flagsI (sc_named sc0) /\ tnd (sc_named sc0) /\ Forall event_names evs.
+Proof.
+  unfold new_with_scope.
+  destruct (p_defs (parse_fuel cps) cps) as [decls rest| | |] eqn:Ed; try discriminate.
+  destruct (declare new_report _ scope_new) as [sc1| |] eqn:D1; try discriminate.
+  destruct (declare new_control _ sc1) as [sc2| |] eqn:D2; try discriminate.
+  destruct (p_events (parse_fuel cps) rest) as [es rest'| | |] eqn:Ee; try discriminate.
+  destruct rest'; try discriminate. intros H. inversion H; subst; clear H.
+  pose proof (p_defs_decls _ _ _ _ Ed) as Hd.
+  destruct (declare_FI new_report new_report_FI _ _ _ (Forall_filter_keep _ _ _ Hd) D1 flagsI_new tnd_new) as [F1 T1].
+  destruct (declare_FI new_control new_control_FI _ _ _ (Forall_filter_keep _ _ _ Hd) D2 F1 T1) as [F2 T2].
+  pose proof (declare_entries_ok new_report new_report_entries_ok _ _ _ D1 entries_ok_new) as E1.
+  pose proof (declare_entries_ok new_control new_control_entries_ok _ _ _ D2 E1) as E2.
+  split; [exact E2|split; [exact F2|split; [exact T2|]]].
+  apply Forall_map. eapply Forall_impl; [|eapply p_events_names; exact Ee].
+  intros ev [Hf Hb]. split; cbn [ev_flag ev_body].
+  - eapply enames_weaken; [|exact Hf]. intros x Hx. left. exact Hx.
+  - apply Forall_map. eapply Forall_impl; [|exact Hb]. intros e He. apply desugar_names. exact He.
+Qed.
+
+(* ---------- every emitted image satisfies the structural contract ---------- *)
+
+Lemma tiles_abs_small devs : forall next flags bodies, tiles_abs next devs flags bodies ->
+  next + N.of_nat (fold_right plus 0 flags + fold_right plus 0 bodies)%nat < 4294967296 -> Forall devent_small devs.
+Proof.
+  induction devs as [|d r IH]; intros next flags bodies Ht Hb; [constructor|].
+  destruct flags as [|f fr]; [destruct Ht|]. destruct bodies as [|b br]; [destruct Ht|].
+  cbn [tiles_abs] in Ht. destruct Ht as (H1 & H2 & _ & H3 & H4 & Hr). cbn [fold_right] in Hb.
+  constructor.
+  - unfold devent_small. rewrite H1, H2, H3, H4. lia.
+  - eapply IH; [exact Hr|]. lia.
+Qed.
+
+Lemma firstn_map_app {A B} (f : A -> B) (a b : list A) : firstn (length a) (map f (a ++ b)) = map f a.
+Proof. rewrite map_app, firstn_app, firstn_all2 by (rewrite map_length; lia). rewrite map_length, Nat.sub_diag. cbn [firstn]. apply app_nil_r. Qed.
+
+Lemma skipn_map_app {A B} (f : A -> B) (a b : list A) : skipn (length a) (map f (a ++ b)) = map f b.
+Proof. rewrite map_app, skipn_app, skipn_all2 by (rewrite map_length; lia). rewrite map_length, Nat.sub_diag. reflexivity. Qed.
+
+Lemma skipn_exact' {A} (a b : list A) n : length a = n -> skipn n (a ++ b) = b.
+Proof. intros <-. rewrite skipn_app, skipn_all, Nat.sub_diag. reflexivity. Qed.
+
+Theorem emitted_image_wf src ups bytes sc b sc' :
+  compile_and_serialize src ups = inl (Ok (bytes, sc)) -> compile src ups = inl (Ok (b, sc')) ->
+  N.of_nat (length (b_instrs b)) < 4294967296 ->
+  image_wf (length (b_events b)) bytes = true.
+Proof.
+  intros Hcs Hc Hsize. unfold compile_and_serialize in Hcs. rewrite Hc in Hcs.
+  destruct (serialize_bin b) as [bs| |] eqn:Hs; cbn in Hcs; try discriminate. inversion Hcs; subst bs sc'; clear Hcs.
+  unfold compile in Hc. destruct (utf8_decode src) as [cps|]; [|discriminate].
+  destruct (new_with_scope cps) as [[[evs sc0]| |]|] eqn:Hn; try discriminate.
+  assert (Hp : compile_prog evs (apply_updates ups sc0) = Ok (b, sc)) by (inversion Hc; reflexivity). clear Hc.
+  destruct (new_with_scope_inv _ _ _ Hn) as (E0 & F0 & T0 & Hnames).
+  pose proof (apply_updates_entries_ok ups _ E0) as E.
+  destruct (apply_updates_FI ups _ F0 T0) as [F T].
+  set (scu := apply_updates ups sc0) in *.
+  unfold compile_prog in Hp. apply bind_ok_inv in Hp. destruct Hp as ([[devs eis] scF] & Hev & Hp). inversion Hp; subst b scF; clear Hp.
+  set (defs := def_instrs (sc_named scu)) in *.
+  cbn [b_instrs b_events] in *.
+  pose proof (image_length _ _ Hs) as Hlen. cbn [b_instrs b_events] in Hlen.
+  unfold serialize_bin in Hs. cbn [b_instrs b_events] in Hs. apply bind_ok_inv in Hs. destruct Hs as (ibytes & Hi & Hs). inversion Hs; subst bytes; clear Hs.
+  pose proof (ser_instrs_ok _ _ Hi) as Sall. apply Forall_app in Sall. destruct Sall as [Sd Se].
+  pose proof (def_instrs_are_defs (sc_named scu)) as Hdefs. fold defs in Hdefs.
+  pose proof (compile_events_no_def _ _ _ _ _ _ Hev) as Hnd.
+  pose proof (compile_events_shape _ _ _ _ _ _ Hev E F T Hnames) as Hshape.
+  destruct (events_tile _ _ _ _ _ _ Hev) as (flags & bodies & Hta & Hle & Hnev).
+  assert (Hsmall : Forall devent_small devs).
+  { eapply tiles_abs_small; [exact Hta|]. rewrite <- Hle. rewrite app_length in Hsize. lia. }
+  unfold image_wf. rewrite Hlen.
+  set (nev := length devs). set (ni := length (defs ++ eis)).
+  replace (16 * nev + 16 * ni)%nat with ((nev + ni) * 16)%nat by lia.
+  rewrite Nat.mod_mul by lia. rewrite Nat.div_mul by lia.
+  assert (Hle2 : Nat.leb (16 * nev) ((nev + ni) * 16) = true) by (apply Nat.leb_le; lia). rewrite Hle2. cbn [Nat.eqb andb].
+  replace (nev + ni - nev)%nat with ni by lia.
+  subst nev ni. rewrite (chunks_ser_events devs ibytes Hsmall).
+  rewrite (skipn_exact' (concat (map ser_event devs)) ibytes (16 * length devs)) by (apply ser_events_length).
+  rewrite (chunks_ser_instrs _ _ Hi).
+  rewrite (count_defs_app defs eis Hdefs Hnd Se).
+  rewrite firstn_map_app, skipn_map_app.
+  rewrite (compile_events_tiles _ _ _ _ _ _ defs Hev E F T Hnames eq_refl Se). rewrite andb_true_r.
+  assert (G1 : forallb instr_ok (map raw_instr (defs ++ eis)) = true).
+  { apply forallb_forall. intros x Hx. apply in_map_iff in Hx. destruct Hx as (i & <- & Hin).
+    apply in_app_or in Hin. destruct Hin as [Hin|Hin].
+    - rewrite Forall_forall in Hdefs, Sd. apply raw_instr_ok; [exact (Sd _ Hin)|exact (proj2 (def_raw_ok _ (Hdefs _ Hin) (Sd _ Hin)))].
+    - rewrite Forall_forall in Hshape, Se. apply raw_instr_ok; [exact (Se _ Hin)|exact (Hshape _ Hin)]. }
+  assert (G2 : forallb def_ok (map raw_instr defs) = true).
+  { apply forallb_forall. intros x Hx. apply in_map_iff in Hx. destruct Hx as (i & <- & Hin).
+    rewrite Forall_forall in Hdefs, Sd. exact (proj1 (def_raw_ok _ (Hdefs _ Hin) (Sd _ Hin))). }
+  assert (G3 : forallb (fun i => negb (ri_op i =? 2)) (map raw_instr eis) = true).
+  { apply forallb_forall. intros x Hx. apply in_map_iff in Hx. destruct Hx as (i & <- & Hin).
+    rewrite Forall_forall in Hnd. cbn [raw_instr ri_op]. rewrite (opcode_def _ (Hnd _ Hin)). reflexivity. }
+  rewrite G1, G2, G3. reflexivity.
+Qed.
